@@ -32,9 +32,21 @@ PATHS = ["qpoints", "band", "mesh", "itermesh", "direct"]
 
 
 def _close(a, b, scale=None):
+    """finite entries within TOL*scale; identical pattern of non-finite entries (equal NaNs / infinities are not a difference)"""
     a, b = np.asarray(a), np.asarray(b)
     if a.shape != b.shape:
         return False
+    if a.dtype.kind in "fc" and b.dtype.kind in "fc":
+        fa, fb = np.isfinite(a), np.isfinite(b)
+        if not (fa == fb).all():
+            return False
+        if not fa.all():
+            na, nb_ = a[~fa], b[~fb]
+            if not ((np.isnan(na) == np.isnan(nb_)).all() and (np.where(np.isnan(na), 0, na) == np.where(np.isnan(nb_), 0, nb_)).all()):
+                return False
+            a, b = a[fa], b[fb]
+    if a.size == 0:
+        return True
     s = max(1.0, float(np.abs(b).max()) if scale is None else scale)
     return bool(np.abs(a - b).max() <= TOL * s)
 
